@@ -31,6 +31,18 @@ const (
 
 // Options configure one exploration.
 type Options struct {
+	// Delay selects delay bounding: the default scheduler is deterministic
+	// (keep running the current thread; on block the first candidate in
+	// canonical order) and EVERY departure from it — also at forced switches —
+	// costs 1. Without it (preemption bounding) choices among forced
+	// candidates are free, which covers every non-preemptive order but grows
+	// factorially with the number of threads.
+	Delay bool
+	// MinBound is the bound that must be completed for the exploration to
+	// count as exhaustive; levels MinBound+1..Bound are explored as far as
+	// SoftBudget allows (iterative deepening).
+	MinBound   int
+	SoftBudget time.Duration
 	Bound      int           // max total cost (preemptions + deviations) per execution
 	TieCost    int           // cost of taking a non-first ready select arm / non-default data choice (0 or 1)
 	MaxSteps   int           // scheduling points per execution before "livelock" is reported
@@ -41,6 +53,10 @@ type Options struct {
 	// order. After the script (or with an empty script) the clock advances to
 	// the earliest armed timer deadline ("auto") while AutoClock is set.
 	AutoClock bool
+	// ClockLast ("timeline mode"): the clock is offered only when nothing else
+	// can run, so model time never moves while a thread or a due timer is
+	// pending, whatever the bound.
+	ClockLast bool
 	Epoch     time.Time // model time zero
 	MaxExecs  int64     // cap on executions (0 = none); hitting it clears Exhaustive
 	Deadline  time.Time // wall-clock deadline for the exploration (zero = none)
@@ -281,7 +297,7 @@ func (r *rtime) schedule() *thread {
 			}
 		}
 		clockIdx := -1
-		if r.clockEnabled() {
+		if r.clockEnabled() && !(r.opts.ClockLast && len(cands) > 0) {
 			clockIdx = len(cands)
 			cands = append(cands, cand{clock: true})
 		}
@@ -296,7 +312,7 @@ func (r *rtime) schedule() *thread {
 				// leaving a runnable thread is a preemption; moving the clock
 				// while something else can run is a deviation; every other
 				// forced choice is free
-				if curRunnable || i == clockIdx {
+				if curRunnable || i == clockIdx || r.opts.Delay {
 					cost |= 1 << uint(i)
 				}
 			}
@@ -337,7 +353,7 @@ func (r *rtime) choose(n int) int {
 		return 0
 	}
 	var cost uint64
-	if r.opts.TieCost > 0 {
+	if r.opts.TieCost > 0 || r.opts.Delay {
 		cost = ^uint64(1)
 	}
 	return r.decide(n, cost, 'd')
@@ -440,6 +456,32 @@ func ThreadID() int {
 		return -1
 	}
 	return rt.cur.id
+}
+
+// NumThreads reports how many model threads have been created so far (ids are
+// assigned in creation order).
+func NumThreads() int { return len(rt.threads) }
+
+// UnfinishedBelow lists unfinished threads whose id is below n.
+func UnfinishedBelow(n int) []string {
+	var out []string
+	for _, t := range rt.threads {
+		if !t.finished && t.id < n {
+			out = append(out, t.name)
+		}
+	}
+	return out
+}
+
+// Unfinished lists the names of model threads that have not finished.
+func Unfinished() []string {
+	var out []string
+	for _, t := range rt.threads {
+		if !t.finished {
+			out = append(out, t.name)
+		}
+	}
+	return out
 }
 
 // ThreadName returns the running thread's name.
